@@ -84,6 +84,7 @@ impl Profile {
         fam[F_STRINGS] = 2;
         fam[F_RESET] = 1;
         fam[F_RECORDED] = 1;
+        fam[F_COMBO] = 2;
         Profile {
             fam,
             eight_bit: 30,
